@@ -55,7 +55,8 @@ def sha_coef(i, P):
 
 def hash_programs(tier, paramset, P, seed):
     import random
-    rnd = random.Random(seed + hash(paramset) % 1000)
+    import zlib
+    rnd = random.Random(seed + zlib.crc32(paramset.encode()) % 1000)       # (str hashes are randomised per process)
     progs = []
     t = 5
 
